@@ -211,6 +211,8 @@ def rules(rep, m):
                   "the guards, and a grant made to the ending process would be lost", floor=1)
     stop_ordering(rep, r5, m)
 
+    config_rule(rep, m)
+
     # R-C08-6 ------------------------------------------------------------
     r6 = rep.rule("R-C08-6", "a signal wakes only the first waiter: a process that is served from availability of several "
                   "units and returns with success passes what is left on to the next waiter of its own kind - on every "
@@ -270,6 +272,14 @@ def rules(rep, m):
                 r6.fail()
             else:
                 r6.ok()
+
+
+def config_rule(rep, m):
+    r7 = rep.rule("R-C08-7", "signals are sent in every documented build configuration: no guard signal (or any other state-"
+                  "changing call) sits inside the condition of an assertion or among the arguments of a logging call, which "
+                  "NDEBUG / NASSERT / NLOGINFO compile out", floor=1)
+    common.config_effects_rule(rep, r7, m, consequence=" - with the flag set the signal is never sent and the first waiter stays "
+                               "blocked although its demand can be met")
 
 
 def stop_ordering(rep, rule, m):
